@@ -396,3 +396,26 @@ Example C03_refines_native_nonvacuous :
   /\ (forall ir dyn name k, orealizes ir dyn ex_ufix_at novar (ex_ufix_at name k) (ex_ffix_at name k))
   /\ refine_example_raising = true.      (* pyq raises instead of its answer number 1: two answers, then the exception *)
 Proof. split; [exact ex_table_ok|split; [vm_compute; reflexivity|split; [exact ex_table_at_ok|vm_compute; reflexivity]]]. Qed.
+
+From YP Require Import Engine.Forwarded.
+
+(* round 4: close() must REACH the open iterator of a delegating frame (Engine/Forwarded.v).  YP.query delegates to the iterator
+   a user predicate returns; closing the query closes that iterator (the machine: unwind over KLoop it body k).  If the frame
+   is torn down WITHOUT closing `it` (a `for` loop in place of `yield from`, the iterator object still referenced by the
+   application) the heap is `unwind h k`: every bound cell that `it` owns stays bound - and with the forwarded close none does. *)
+Theorem C03_close_must_be_forwarded : forall (it : iter leaf lx fr callp) body (k : kont leaf lx fr callp) (h : heap) n,
+  In n (icells it) -> ~ In n (kcells k) -> In n (keys h) ->
+  In n (keys (unwind lclose h k)) /\ ~ In n (keys (unwind lclose h (KLoop it body k))).
+Proof. exact close_must_be_forwarded. Qed.
+Print Assumptions C03_close_must_be_forwarded.
+
+Theorem C03_forwarded_close_releases : forall (it : iter leaf lx fr callp) body (k : kont leaf lx fr callp) (h : heap) n,
+  In n (icells it ++ kcells k) -> ~ In n (keys (unwind lclose h (KLoop it body k))).
+Proof. exact forwarded_close_releases. Qed.
+Print Assumptions C03_forwarded_close_releases.
+
+Example C03_forwarded_nonvacuous :
+  In 3 (icells fw_it) /\ ~ In 3 (kcells fw_k) /\ In 3 (keys fw_heap) /\
+  unwind lclose fw_heap fw_k = fw_heap /\
+  unwind lclose fw_heap (KLoop fw_it CSkip fw_k) = [(7, TAtom (d "keep"%string))].
+Proof. exact forwarded_example. Qed.
